@@ -10,7 +10,7 @@
      - every comparison with None is false; isnan None = true.
    Definitions only. *)
 From Coq Require Import Reals ZArith Bool.
-From Flocq Require Import Zaux Raux.
+From Flocq Require Import Zaux Raux Generic_fmt Round_NE.
 From PR Require Import Base.Num Base.RNum.
 Open Scope R_scope.
 
@@ -35,3 +35,18 @@ Definition RN : ops (option R) := {|
   ltb := ocmp Rltb; leb := ocmp Rleb; eqb := ocmp Reqb;
   isnan := oisnan; isfinite := fun a => negb (oisnan a); nan := None
 |}.
+
+(* ---- vocabulary of the C06 statements (plain reals) *)
+Definition bilerp (v1 v2 v3 v4 s t : R) : R := v1 * (1 - s) * (1 - t) + v2 * s * (1 - t) + v3 * (1 - s) * t + v4 * s * t.
+
+(* corners p1 (upper left), p2 (upper right), p3 (lower left), p4 (lower right) lie in the four open quadrants
+   around the output location (ox, oy) *)
+Definition surrounds (p1 p2 p3 p4 : R * R) (ox oy : R) : Prop :=
+  fst p1 < ox /\ oy < snd p1 /\ ox < fst p2 /\ oy < snd p2 /\
+  fst p3 < ox /\ snd p3 < oy /\ ox < fst p4 /\ snd p4 < oy.
+
+Definition in01 (x : R) : Prop := 0 <= x <= 1.
+
+(* lifting plain real inputs into RN *)
+Definition lift_pt (p : R * R) : option R * option R := (Some (fst p), Some (snd p)).
+Definition lift_nb (n : R * R * Z) : option R * option R * Z := let '(x, y, i) := n in (Some x, Some y, i).
